@@ -54,7 +54,7 @@ def call(ctx, d, prior, script, md5s):
             raise MachineryError('more checksum requests than scripted: %r' % log)
         if m == 'missing':
             return (404, {}, b'')
-        return (200, {}, (SUM_GOOD if m == 'correct' else 'f' * 32) + '  file.bin\n')
+        return (200, {}, dict(correct=SUM_GOOD, wrong='f' * 32, mangled=SUM_GOOD[:-1])[m] + '  file.bin\n')
 
     with responses.RequestsMock(assert_all_requests_are_fired=False) as rs:
         rs.add_callback(responses.GET, URL, callback=data_cb)
@@ -135,10 +135,10 @@ def run(ctx):
             L = int(rng.randint(0, 7))
             script = [['good', 'corrupt', 'e404', 'trunc', 'empty'][int(x)] for x in rng.randint(0, 5, size=L)]
             if rng.rand() < 0.5:
-                m = ['correct', 'wrong', 'missing'][int(rng.randint(0, 3))]
+                m = ['correct', 'wrong', 'missing', 'mangled'][int(rng.randint(0, 4))]
                 md5s = [m, m, m]
             else:
-                md5s = [['correct', 'wrong', 'missing'][int(x)] for x in rng.randint(0, 3, size=3)]
+                md5s = [['correct', 'wrong', 'missing', 'mangled'][int(x)] for x in rng.randint(0, 4, size=3)]
             prior = ['absent', 'valid', 'corrupt'][int(rng.randint(0, 3))]
             with ctx.guard('trace', dict(prior=prior, script=script, md5s=md5s)):
                 reqs, status, fin = call(ctx, d, prior, script, md5s)
